@@ -126,6 +126,10 @@ def build_ops(sig, rng):
     add("fast_len", lambda z: pb.fast_len(z))
     tr = pb.signal_transform(_affine)
     add("signal_transform", lambda z: tr(z))
+    # extra arguments of the wrapped function given positionally and by keyword
+    tr2 = pb.signal_transform(_affine2)
+    add("signal_transform_posargs", lambda z: tr2(z, 3.0, 5.0))
+    add("signal_transform_kwargs", lambda z: tr2(z, b=5.0, a=3.0))
     # wrapped functions that change the dtype (complex -> float, anything -> bool/float64)
     tr_abs = pb.signal_transform(np.abs)
     tr_thr = pb.signal_transform(_threshold)
@@ -181,6 +185,10 @@ def build_ops(sig, rng):
 
 def _affine(x):
     return x * 2 + 1
+
+
+def _affine2(x, a=2.0, b=1.0):
+    return x * a + b
 
 
 def _threshold(x):
@@ -427,6 +435,16 @@ def wl_readers(ctx, idx, rng):
     eager, exc = ctx.call(o, r.read, off, n, where="read")
     if exc is not None:
         return
+    # the flag as any truthy value (a NumPy bool from a comparison, 1): still a lazy, Dask-backed read
+    flag = gen.pick(rng, [np.True_, 1, np.bool_(True), np.int64(1)])
+    calls1 = ctx.counters["read_array_calls"]
+    lz3, exc3 = ctx.call(o, r.read, off, n, where=f"read(use_dask={flag!r})", use_dask=flag)
+    if exc3 is None:
+        ctx.count("oracle[lazy]")
+        if not isinstance(lz3.data, da.Array):
+            ctx.violation(o, f"read(use_dask={flag!r}) returned {type(lz3.data).__name__} data", None, {"what": "container", "op": "read_use_dask_truthy"})
+        elif ctx.counters["read_array_calls"] != calls1:
+            ctx.violation(o, f"read(use_dask={flag!r}) executed _read_array before compute", None, {"what": "eager", "op": "read_use_dask_truthy"})
     meta_equal(ctx, o, eager, lazy, {"op": "dask_read"})
     if not isinstance(lazy.data, da.Array):
         ctx.violation(o, "dask_read result is not Dask-backed", None, {"what": "container", "op": "dask_read"})
